@@ -23,6 +23,8 @@ pub struct GenParams {
     pub tight_alloc: bool,
     /// tails in which one application keeps talking (see `Tail::chatter`)
     pub chatter: bool,
+    /// weight of the stalled-receiving-application tick shape (the other shapes weigh 18 together)
+    pub stall_weight: u32,
 }
 
 impl Default for GenParams {
@@ -42,6 +44,7 @@ impl Default for GenParams {
             max_fates: 200,
             tight_alloc: true,
             chatter: false,
+            stall_weight: 3,
         }
     }
 }
@@ -201,10 +204,38 @@ fn ticks_strategy(p: &GenParams) -> BoxedStrategy<Vec<Tick>> {
     let period = prop_oneof![2 => Just(1_000u64), 3 => Just(5_000u64), 4 => Just(10_000u64), 4 => Just(16_000u64), 4 => Just(30_000u64), 2 => Just(60_000u64), 1 => Just(150_000u64), 1 => Just(500_000u64)];
     let regular = (period.clone(), proptest::collection::vec((dtsel_strategy(false), act_strategy(p, true), act_strategy(p, p.both_directions)), 1..=p.max_ticks.max(1)))
         .prop_map(|(period, v)| v.into_iter().map(|(sel, a, b)| Tick { dt_us: resolve_dt(period, &sel), acts: [a, b] }).collect::<Vec<Tick>>());
-    let irregular = (period, proptest::collection::vec((dtsel_strategy(true), act_strategy(p, true), act_strategy(p, p.both_directions)), 1..=p.max_ticks.max(1)))
+    let irregular = (period.clone(), proptest::collection::vec((dtsel_strategy(true), act_strategy(p, true), act_strategy(p, p.both_directions)), 1..=p.max_ticks.max(1)))
         .prop_map(|(period, v)| v.into_iter().map(|(sel, a, b)| Tick { dt_us: resolve_dt(period, &sel), acts: [a, b] }).collect::<Vec<Tick>>());
     let wild = proptest::collection::vec(tick_strategy(p), 1..=p.max_ticks.max(1));
-    prop_oneof![6 => regular, 2 => irregular, 1 => wild].boxed()
+    // a stalled receiving application: after some regular traffic one endpoint submits a few packets and falls
+    // silent while the other application does not call step() for 2-7 s (the silent sender keeps stepping and
+    // emits its sync frames into the stalled side's socket buffer); then regular traffic resumes
+    let half = (p.max_ticks.max(2) / 2).max(1);
+    let stall = (
+        period,
+        prop_oneof![2 => proptest::collection::vec((dtsel_strategy(false), act_strategy(p, true), act_strategy(p, p.both_directions)), 0..=3), 1 => proptest::collection::vec((dtsel_strategy(false), act_strategy(p, true), act_strategy(p, p.both_directions)), 0..=half)],
+        (any::<bool>(), proptest::collection::vec((send_strategy(p), prop_oneof![1 => Just(None), 1 => Just(Some(1u8)), 1 => Just(Some(0u8))]), 1..=3).prop_map(|v| v.into_iter().map(|(mut s, m)| { if let Some(m) = m { s.mode = m; } s }).collect::<Vec<SendSpec>>()), prop_oneof![Just(0u8), Just(1u8)]),
+        (prop_oneof![Just(50_000u64), Just(100_000u64), Just(250_000u64), Just(500_000u64)], 2_000_000u64..7_000_000),
+        proptest::collection::vec((dtsel_strategy(false), act_strategy(p, true), act_strategy(p, p.both_directions)), 1..=half),
+    )
+        .prop_map(|(period, pre, (sender_is_0, lone, flushes), (stall_dt, stall_total), post)| {
+            let mut ticks: Vec<Tick> = pre.into_iter().map(|(sel, a, b)| Tick { dt_us: resolve_dt(period, &sel), acts: [a, b] }).collect();
+            let s = if sender_is_0 { 0 } else { 1 };
+            let mut acts = [EpAct { step: true, sends: Vec::new(), flushes: 0 }, EpAct { step: true, sends: Vec::new(), flushes: 0 }];
+            acts[s].sends = lone;
+            acts[s].flushes = flushes;
+            ticks.push(Tick { dt_us: period, acts });
+            let mut t = 0;
+            while t < stall_total {
+                let mut acts = [EpAct { step: true, sends: Vec::new(), flushes: 0 }, EpAct { step: true, sends: Vec::new(), flushes: 0 }];
+                acts[1 - s].step = false;
+                ticks.push(Tick { dt_us: stall_dt, acts });
+                t += stall_dt;
+            }
+            ticks.extend(post.into_iter().map(|(sel, a, b)| Tick { dt_us: resolve_dt(period, &sel), acts: [a, b] }));
+            ticks
+        });
+    prop_oneof![12 => regular, 4 => irregular, 2 => wild, p.stall_weight.max(1) => stall].boxed()
 }
 
 pub fn scenario_strategy(p: &GenParams) -> BoxedStrategy<PairScenario> {
